@@ -94,6 +94,65 @@ def resolve_op(w, op):
     return op
 
 
+# Python-level signatures of the entry points (IAdapterRegistry): a call may pass the first [pos] arguments
+# positionally and the others BY KEYWORD, and may leave [default] out (then None is the default)
+SIGS = {"lookup": ["required", "provided", "name", "default"], "lookup1": ["required", "provided", "name", "default"],
+        "queryAdapter": ["object", "provided", "name", "default"], "adapter_hook": ["provided", "object", "name", "default"],
+        "queryMultiAdapter": ["objects", "provided", "name", "default"], "lookupAll": ["required", "provided"],
+        "names": ["required", "provided"], "subscriptions": ["required", "provided"], "subscribers": ["objects", "provided"]}
+
+
+def run_kw(w, op, how):
+    """the entry-point call of [op] with keyword arguments: how = {"pos": n positional arguments, "nodefault": bool};
+    same answer encoding as reg_common.run_op"""
+    k = op[0]
+    r = w.regs[op[1]]
+    default = object()
+    vals = {"provided": w.prov(op[3])}
+    if k in ("lookup", "lookupAll", "names", "subscriptions"):
+        vals["required"] = w.req(op[2])
+    elif k == "lookup1":
+        vals["required"] = w.specs[op[2]]
+    elif k in ("queryAdapter", "adapter_hook"):
+        vals["object"] = w.objects[op[2]]
+    else:
+        vals["objects"] = [w.objects[i] for i in op[2]]
+    sig = list(SIGS[k])
+    if "name" in sig:
+        vals["name"] = w.name(op[4])
+        vals["default"] = default
+        if how.get("nodefault"):
+            sig.remove("default")
+            default = None
+    pos = min(how.get("pos", 0), len(sig))
+    before = len(w.calls)
+    res = getattr(r, k)(*[vals[a] for a in sig[:pos]], **{a: vals[a] for a in sig[pos:]})
+    if k in ("lookup", "lookup1"):
+        return R.enc_res_value(res, default)
+    if k in ("queryAdapter", "adapter_hook", "queryMultiAdapter"):
+        return R.enc_res_nat(res, default)
+    if k == "lookupAll":
+        items = sorted((w.name_id(n), v.vid) for n, v in res)
+        return [x for it in items for x in it]
+    if k == "names":
+        return sorted(w.name_id(n) for n in res)
+    if k == "subscriptions":
+        return [v.vid for v in res]
+    return list(res) + [R.MARK] + [c[0] for c in w.calls[before:]]
+
+
+def run_one(w, rop):
+    """one registry op -> its answer; a trailing {"pos": .., "nodefault": ..} asks for the keyword spelling"""
+    if isinstance(rop[-1], dict) and rop[0] in SIGS:
+        try:
+            return run_kw(w, rop[:-1], rop[-1])
+        except ValueError:
+            return [2]
+        except Exception as e:  # noqa
+            return [3, sum(map(ord, type(e).__name__)) % 1000]
+    return R.run_ops(w, [rop])[0]
+
+
 def world_step(w, op):
     """An in-place change of a required-side specification: [kind, class spec id, interface id]."""
     from zope.interface import classImplements, classImplementsFirst, classImplementsOnly
@@ -124,7 +183,7 @@ def run_case(case):
             ops_out.append(list(op))
             continue
         rop = resolve_op(w, op)
-        a = R.run_ops(w, [rop])[0]
+        a = run_one(w, rop)
         answers.append(canon(a))
         ops_out.append(rop)
     phases.append(snapshot(w, changed))
